@@ -1,7 +1,7 @@
 (** C16 - bad paths fail before any change; loadable torrents never crash a run.  Statements only.
     Partial: allocation failure (known finding K2) and thread panics at join are runtime. *)
 From TB Require Import Base Decimal BencodeModel TorrentModel TorrentProofs PathModel FsModel SolverModel FinderModel RunModel
-                       SolverProofs RunProofs FsProofs FaultProofs PreludeProofs TableProofs Generated GeneratedObligations.
+                       SolverProofs RunProofs FsProofs FaultProofs PreludeProofs TableProofs Generated GeneratedObligations SystemModel SystemProofs GlueProofs RunExample.
 Local Open Scope N_scope.
 
 (** A scan or export path that is relative, missing or not a directory - whichever position it
@@ -21,6 +21,18 @@ Proof. exact (solve_prog_good H content pc). Qed.
 Theorem C16_load_total H x : len x <= u64max -> load H x <> Panic /\ load H x <> OutOfFuel.
 Proof. exact (load_total H x). Qed.
 
+(** WHOLE RUN: in no reachable state is any program of the pool at a panic. *)
+Theorem C16_whole_run_no_panic H content export ts ix es ws f0 pool0 s pg :
+  run_setup H content export ts ix es ws f0 pool0 -> sreach {| s_fs := f0; s_pool := pool0 |} s ->
+  In pg (s_pool s) -> pg <> Ret PanicO.
+Proof. exact (whole_run_no_panic H content export ts ix es ws f0 pool0 s pg). Qed.
+
+(** What the loader returns satisfies the premises of the layout and work-list theorems. *)
+Theorem C16_loaded_torrent_ok H x t : len x <= u64max -> load H x = Ok t -> torrent_ok t.
+Proof. exact (load_torrent_ok H x t). Qed.
+
 Print Assumptions C16_bad_path_no_effect.
 Print Assumptions C16_piece_never_panics.
 Print Assumptions C16_load_total.
+Print Assumptions C16_whole_run_no_panic.
+Print Assumptions C16_loaded_torrent_ok.
